@@ -114,9 +114,10 @@ class Evaluator:
             if s.value is not None:
                 self._bind(s.target, self._eval(s.value, env), env)
             return
-        if isinstance(s, ast.AugAssign) and isinstance(s.target, ast.Name):
-            cur = self._eval(ast.Name(id=s.target.id, ctx=ast.Load()), env)
-            env[s.target.id] = self._binop(s.op, cur, self._eval(s.value, env), s)
+        if isinstance(s, ast.AugAssign):
+            load = ast.parse(src(s.target), mode="eval").body
+            cur = self._eval(load, env)
+            self._bind(s.target, self._binop(s.op, cur, self._eval(s.value, env), s), env)
             return
         if isinstance(s, ast.If):
             if self._truth(self._eval(s.test, env), s.test):
@@ -187,6 +188,22 @@ class Evaluator:
                 raise Licence(f"{self.f.loc(t)}: cannot unpack abstract value {v!r}")
             for sub, item in zip(t.elts, v):
                 self._bind(sub, item, env)
+        elif isinstance(t, ast.Subscript):
+            base = self._eval(t.value, env)
+            key = self._eval(t.slice, env)
+            if isinstance(base, dict) or (isinstance(base, list) and isinstance(key, int)):
+                try:
+                    base[key] = v
+                except (IndexError, TypeError):
+                    raise _Raise("IndexError", (), (), t) from None
+            else:
+                raise Licence(f"{self.f.loc(t)}: subscript store into abstract value {base!r}")
+        elif isinstance(t, ast.Attribute):
+            base = self._eval(t.value, env)
+            if isinstance(base, Obj):
+                base.attrs[t.attr] = v
+            else:
+                raise Licence(f"{self.f.loc(t)}: attribute store on abstract value {base!r}")
         else:
             raise Licence(f"{self.f.loc(t)}: assignment target {src(t)} outside the guard vocabulary")
 
@@ -270,9 +287,23 @@ class Evaluator:
                     return base[idx]
                 except IndexError:
                     raise _Raise("IndexError", (), (), e) from None
+            if isinstance(base, dict):
+                try:
+                    return base[idx]
+                except (KeyError, TypeError):
+                    raise _Raise("KeyError", (idx,), (), e) from None
+            if isinstance(base, (list, tuple)) and isinstance(e.slice, ast.Slice):
+                lo = self._eval(e.slice.lower, env) if e.slice.lower is not None else None
+                hi = self._eval(e.slice.upper, env) if e.slice.upper is not None else None
+                if e.slice.step is None and all(x is None or isinstance(x, int) for x in (lo, hi)):
+                    return base[lo:hi]
             raise Licence(f"{self.f.loc(e)}: subscript {src(e)} on abstract value {base!r}")
         if isinstance(e, ast.Call):
             return self._call(e, env)
+        if isinstance(e, ast.Dict):
+            return {self._hashable(self._eval(k, env), k): self._eval(v, env) for k, v in zip(e.keys, e.values)}
+        if isinstance(e, (ast.ListComp, ast.GeneratorExp, ast.SetComp, ast.DictComp)):
+            return self._comprehension(e, env)
         if isinstance(e, ast.Attribute):
             d = dotted(e)
             if d:
@@ -280,14 +311,63 @@ class Evaluator:
                 if c is not None:
                     return ExcClass(c.name)
             base = self._eval(e.value, env)
+            if isinstance(base, TypeOf) and e.attr == "__name__":
+                return base.name
             if isinstance(base, Obj):
+                if e.attr == "__class__":
+                    return TypeOf(base.cls)
                 if e.attr in base.attrs:
                     return base.attrs[e.attr]
+                # read-only property whose getter returns self._x
+                c0 = next((c for c in self.prog.classes.values() if c.name == base.cls), None)
+                if c0 is not None:
+                    gt = self.prog.lookup_getter(c0, e.attr)
+                    if gt is not None:
+                        out = self._run_func(gt, {gt.self_name: base})
+                        if out.kind == "return":
+                            return out.value
                 raise Licence(f"{self.f.loc(e)}: attribute {e.attr} of the abstract object is not part of the table")
             if isinstance(base, Opaque):
                 return Opaque(f"{base.tag}.{e.attr}")
             raise Licence(f"{self.f.loc(e)}: attribute {src(e)} of abstract value {base!r}")
         raise Licence(f"{self.f.loc(e)}: expression kind {type(e).__name__} ({src(e)}) is outside the guard vocabulary")
+
+    def _hashable(self, v: Any, node: ast.AST) -> Any:
+        try:
+            hash(v)
+        except TypeError:
+            raise Licence(f"{self.f.loc(node)}: unhashable abstract key {v!r}") from None
+        return v
+
+    def _comprehension(self, e: ast.expr, env: dict[str, Any]) -> Any:
+        out_list: list[Any] = []
+        out_dict: dict[Any, Any] = {}
+
+        def rec(i: int, scope: dict[str, Any]) -> None:
+            if i == len(e.generators):  # type: ignore[attr-defined]
+                if isinstance(e, ast.DictComp):
+                    out_dict[self._hashable(self._eval(e.key, scope), e.key)] = self._eval(e.value, scope)
+                else:
+                    out_list.append(self._eval(e.elt, scope))  # type: ignore[attr-defined]
+                return
+            gen = e.generators[i]  # type: ignore[attr-defined]
+            it = self._eval(gen.iter, scope)
+            if isinstance(it, dict):
+                it = list(it)
+            if not isinstance(it, (list, tuple, range, set)):
+                raise Licence(f"{self.f.loc(gen.iter)}: comprehension over a non-sequence abstract value")
+            for item in it:
+                inner = dict(scope)
+                self._bind(gen.target, item, inner)
+                if all(self._truth(self._eval(c, inner), c) for c in gen.ifs):
+                    rec(i + 1, inner)
+
+        rec(0, dict(env))
+        if isinstance(e, ast.DictComp):
+            return out_dict
+        if isinstance(e, ast.SetComp):
+            return set(out_list)
+        return out_list
 
     def _binop(self, op: ast.operator, a: Any, b: Any, node: ast.AST) -> Any:
         num = (int, Fraction)
@@ -339,6 +419,8 @@ class Evaluator:
             return a.tag == b.tag
         if isinstance(a, ExcClass) and isinstance(b, ExcClass):
             return a.name == b.name
+        if isinstance(a, Obj) and isinstance(b, Obj):
+            return a is b
         raise Licence(f"{self.f.loc(node)}: identity test {src(node)} on {a!r}, {b!r}")
 
     def _call(self, e: ast.Call, env: dict[str, Any]) -> Any:
@@ -364,6 +446,52 @@ class Evaluator:
             return list(args[0]) if q == "list" else tuple(args[0])
         if q in ("typing.cast", "cast") and len(args) == 2:
             return args[1]
+        if q in ("max", "min") and args:
+            vals = list(args[0]) if len(args) == 1 and isinstance(args[0], (list, tuple, set, dict)) or (len(args) == 1 and hasattr(args[0], "__iter__") and not isinstance(args[0], str)) else list(args)
+            if not vals:
+                raise _Raise("ValueError", (), (), e)
+            if all(isinstance(x, (int, Fraction)) and not isinstance(x, bool) for x in vals):
+                return max(vals) if q == "max" else min(vals)
+            raise Licence(f"{self.f.loc(e)}: {q} over non-numeric abstract values")
+        if q in ("sorted",) and len(args) == 1 and isinstance(args[0], (list, tuple, set)) and all(isinstance(x, (int, Fraction, str)) for x in args[0]):
+            return sorted(args[0])
+        if q in ("set", "dict") and len(args) <= 1:
+            return (set if q == "set" else dict)(*args)
+        if q == "type" and len(args) == 1 and isinstance(args[0], Obj):
+            return TypeOf(args[0].cls)
+        if q == "isinstance" and len(args) == 2 and isinstance(args[0], Obj) and isinstance(args[1], (ExcClass, TypeOf)):
+            c0 = self.prog.find_class(args[0].cls) if any(c.name == args[0].cls for c in self.prog.classes.values()) else None
+            if c0 is not None:
+                return any(k.name == args[1].name for k in self.prog.mro(c0))
+            return args[0].cls == args[1].name
+        if isinstance(e.func, ast.Attribute) and not (isinstance(e.func.value, ast.Name) and isinstance(env.get(e.func.value.id), Obj)):
+            try:
+                recv = self._eval(e.func.value, env)
+            except Licence:
+                recv = None
+            m = e.func.attr
+            if isinstance(recv, dict) and m in ("values", "keys", "items", "get", "pop", "setdefault", "copy"):
+                if m == "values":
+                    return list(recv.values())
+                if m == "keys":
+                    return list(recv.keys())
+                if m == "items":
+                    return list(recv.items())
+                if m == "copy":
+                    return dict(recv)
+                if m == "get":
+                    return recv.get(args[0], args[1] if len(args) > 1 else None)
+                if m == "setdefault":
+                    return recv.setdefault(args[0], args[1] if len(args) > 1 else None)
+                if m == "pop":
+                    return recv.pop(*args)
+            if isinstance(recv, list) and m in ("append", "extend", "index", "count", "copy", "insert"):
+                if m == "index":
+                    try:
+                        return recv.index(*args)
+                    except ValueError:
+                        raise _Raise("ValueError", (), (), e) from None
+                return getattr(recv, m)(*args)
         if q == "print":
             self.printed.append(src(e))
             return None
@@ -442,6 +570,16 @@ class ExcClass:
 
     def __repr__(self) -> str:
         return f"<class {self.name}>"
+
+    def __eq__(self, o: object) -> bool:
+        return isinstance(o, (ExcClass, TypeOf)) and o.name == self.name
+
+    def __hash__(self) -> int:
+        return hash(("cls", self.name))
+
+
+class TypeOf(ExcClass):
+    """`type(obj)` of an abstract object."""
 
 
 @dataclass(frozen=True)
